@@ -47,6 +47,20 @@ pub fn gcc_response(p: &SrvParams) -> Vec<u8> {
     let tail = cat(&[&[0x14, 0x76, 0x0a, 0x01, 0x01, 0x00, 0x01, 0xc0, 0x00], b"McDn", &perlen(blocks.len()), &blocks]);
     cat(&[&[0x00, 0x05, 0x00, 0x14, 0x7c, 0x00, 0x01], &perlen(tail.len()), &tail])
 }
+/// conference-create response whose SC_NET block announces the given static channel ids
+/// (MS-RDPBCGR 2.2.1.4.4: a 2-byte pad follows an odd number of ids)
+pub fn gcc_response_channels(p: &SrvParams, ids: &[u16], pad: bool) -> Vec<u8> {
+    let mut net = cat(&[&[0xeb, 0x03], &le16(ids.len() as u16)]);
+    for i in ids { net.extend(le16(*i)); }
+    if pad && ids.len() % 2 == 1 { net.extend(&[0, 0]); }
+    let blocks = cat(&[
+        &[0x01, 0x0c, 0x0c, 0x00], &le32(p.version), &le32(p.selected),
+        &[0x02, 0x0c, 0x0c, 0x00, 0, 0, 0, 0, 0, 0, 0, 0],
+        &[0x03, 0x0c], &le16((net.len() + 4) as u16), &net,
+    ]);
+    let tail = cat(&[&[0x14, 0x76, 0x0a, 0x01, 0x01, 0x00, 0x01, 0xc0, 0x00], b"McDn", &perlen(blocks.len()), &blocks]);
+    cat(&[&[0x00, 0x05, 0x00, 0x14, 0x7c, 0x00, 0x01], &perlen(tail.len()), &tail])
+}
 fn ber_len(n: usize) -> Vec<u8> { if n < 0x80 { vec![n as u8] } else if n < 0x100 { vec![0x81, n as u8] } else { vec![0x82, (n >> 8) as u8, n as u8] } }
 pub fn connect_response(p: &SrvParams) -> Vec<u8> {
     let gcc = gcc_response(p);
@@ -70,6 +84,11 @@ pub fn cap(ty: u16, body: &[u8]) -> Vec<u8> { cat(&[&le16(ty), &le16((body.len()
 pub fn demand_active(share_id: u32, source: &[u8], caps: &[Vec<u8>]) -> Vec<u8> {
     let capb: Vec<u8> = caps.iter().flat_map(|c| c.clone()).collect();
     share_control(0x11, 0x03ea, &cat(&[&le32(share_id), &le16(source.len() as u16), &le16((capb.len() + 4) as u16), source, &le16(caps.len() as u16), &le16(0), &capb, &le32(0)]))
+}
+/// a (client-to-server) confirm-active PDU, as a hostile server might reflect it
+pub fn confirm_active(share_id: u32, source: &[u8], caps: &[Vec<u8>]) -> Vec<u8> {
+    let capb: Vec<u8> = caps.iter().flat_map(|c| c.clone()).collect();
+    share_control(0x13, 0x03ea, &cat(&[&le32(share_id), &le16(0x03ea), &le16(source.len() as u16), &le16((capb.len() + 4) as u16), source, &le16(caps.len() as u16), &le16(0), &capb]))
 }
 pub fn deactivate_all(share_id: u32, source: &[u8]) -> Vec<u8> { share_control(0x16, 0x03ea, &cat(&[&le32(share_id), &le16(source.len() as u16), source])) }
 pub fn synchronize(share_id: u32, target: u16) -> Vec<u8> { share_data(share_id, 0x1f, &cat(&[&le16(1), &le16(target)])) }
